@@ -654,6 +654,7 @@ impl DecodeBeatmap for HitObjects {
                 .map(|(bank_info, sound_type)| bank_info.convert_sound_type(sound_type))
                 .collect();
 
+            state.curve_points.clear();
             state.convert_path_str(point_str, pos)?;
             let mut control_points = Vec::with_capacity(state.curve_points.len());
             control_points.append(&mut state.curve_points);
